@@ -41,18 +41,24 @@ class Evaluator:
     def __init__(self, exe):
         self.p = subprocess.Popen([exe, 'eval'], stdin=subprocess.PIPE, stdout=subprocess.PIPE, text=True, bufsize=1 << 20)
 
-    def batch(self, queries):
-        """queries: list of (id, num, [values as float or str]) -> list of result lists (python floats via hex)"""
-        lines = []
-        for rid, num, vals in queries:
-            lines.append(f'{rid} {num} ' + ' '.join(v if isinstance(v, str) else float(v).hex() for v in vals))
-        self.p.stdin.write('\n'.join(lines) + '\n')
-        self.p.stdin.flush()
+    def batch(self, queries, chunk=100):
+        """queries: list of (id, num, [values as float or str]) -> list of result lists (python floats via hex).
+        Written in chunks so that neither pipe can fill up while the other side is blocked."""
         out = []
-        for _ in queries:
-            parts = self.p.stdout.readline().split()
-            n = int(parts[1])
-            out.append(None if n < 0 else [hexf(x) for x in parts[2:2 + n]])
+        for i in range(0, len(queries), chunk):
+            qs = queries[i:i + chunk]
+            lines = []
+            for rid, num, vals in qs:
+                vals = list(vals)
+                while vals and vals[-1] == 0:
+                    vals.pop()
+                lines.append(f'{rid} {num} ' + ' '.join(v if isinstance(v, str) else float(v).hex() for v in vals))
+            self.p.stdin.write('\n'.join(lines) + '\n')
+            self.p.stdin.flush()
+            for _ in qs:
+                parts = self.p.stdout.readline().split()
+                n = int(parts[1])
+                out.append(None if n < 0 else [hexf(x) for x in parts[2:2 + n]])
         return out
 
     def close(self):
